@@ -245,9 +245,10 @@ func verifyFunc(prog *Program, key string) (res *FuncResult) {
 		ex.assume(ex.specBool(sc, c))
 	}
 	ex.oldState = ex.st.clone()
-	outs := ex.inlineBody(fn.FullName(), sig, decl.Type, decl.Body, decl.Recv, recv, args, pkg, fc, true)
-	// postconditions
-	if !ex.st.dead {
+	checkEnsures := func(outs []Val, suffix string) {
+		if ex.st.dead {
+			return
+		}
 		post := &specCtx{ex: ex, st: ex.st, old: ex.oldState, vars: map[string]Val{}, stateVars: map[string]stateVar{}, pkg: pkg.Types}
 		for k, v := range ex.paramVals {
 			post.vars[k] = v
@@ -263,7 +264,6 @@ func verifyFunc(prog *Program, key string) (res *FuncResult) {
 				}
 			}
 		}
-		fr := ex.lastFrame
 		for i := 0; i < sig.Results().Len() && i < len(outs); i++ {
 			rn := sig.Results().At(i).Name()
 			if i < len(fc.Results) {
@@ -276,7 +276,6 @@ func verifyFunc(prog *Program, key string) (res *FuncResult) {
 				post.vars["result"] = outs[i]
 			}
 		}
-		_ = fr
 		ex.curPos = decl.Pos()
 		for i, c := range fc.Ensures {
 			kind, lab := "E", c.Label
@@ -288,8 +287,13 @@ func verifyFunc(prog *Program, key string) (res *FuncResult) {
 			}
 			g := ex.specBool(post, c)
 			ex.curPos = decl.Pos()
-			ex.assert(kind, "ensures["+lab+"]", g)
+			ex.assert(kind, "ensures["+lab+"]"+suffix, g)
 		}
+	}
+	ex.exitHook = checkEnsures
+	outs := ex.inlineBody(fn.FullName(), sig, decl.Type, decl.Body, decl.Recv, recv, args, pkg, fc, true)
+	if !ex.exitsChecked {
+		checkEnsures(outs, "")
 	}
 	res.Obls = ex.obls
 	for _, n := range ex.declOrder {
